@@ -300,9 +300,28 @@ SimRec(t, e, cfg0, errs, hooks, k, devs, opt) ==
                       ELSE {}
             IN SimRec(t, e, cfg2, errs, hooks, k + 1, devs \cup d1 \cup d2 \cup d3 \cup d4 \cup d5 \cup d6 \cup d7, opt)
 
+\* does the bare LR machine (state stack only) on this table still run after `fuel' steps?
+RECURSIVE LoopsBare(_, _, _, _, _)
+LoopsBare(t, toks, st, la, fuel) ==
+  IF fuel = 0 THEN TRUE
+  ELSE LET a == TAct(t, st[Len(st)], Tok(toks, la)) IN
+       CASE a[1] = "r" -> LET p == a[2]  st2 == SubSeq(st, 1, Len(st) - PLen(p))
+                              st3 == TLCEval(Append(st2, TGoto(t, st2[Len(st2)], Lhs(p))))
+                          IN LoopsBare(t, toks, st3, la, fuel - 1)
+         [] a[1] = "s" -> LET st3 == TLCEval(Append(st, a[2])) IN LoopsBare(t, toks, st3, la + 1, fuel - 1)
+         [] OTHER -> FALSE
+
 RunDevs(t, a, e, run) ==
   IF "panic" \in DOMAIN run /\ run.panic # "HARNESS-LOOP" THEN D("ANY", "parser panicked", run.panic)
-  ELSE IF "panic" \in DOMAIN run THEN (IF X.cyclic THEN D("SKIP", "reduce loop on cyclic grammar", 0) ELSE D("ANY", "parse did not return (reduce loop)", 0))
+  ELSE IF "panic" \in DOMAIN run THEN
+         \* the parse was stopped after 100 000 reductions
+         (IF X.cyclic THEN D("SKIP", "reduce loop on cyclic grammar", 0)
+          ELSE IF t.has_conflicts /\ LoopsBare(t, ToksOf(e), <<t.start>>, 0, 800)
+               \* the specification's LR machine loops on this table as well: the loop is in the
+               \* table (a resolved conflict sends the automaton round empty reductions - hidden left
+               \* recursion), not in the driver
+               THEN D("C07", "KF:lr-loop-conflicts", 0) \cup D("SKIP", "reduce loop of the LR automaton itself (table with resolved conflicts)", 0)
+          ELSE D("ANY", "parse did not return (reduce loop)", 0))
   ELSE
   LET lex == LexOf(e)  toks == ToksOf(e)
       aerrs == ParseErrs(run.act.errors)
